@@ -727,6 +727,8 @@ class C11(Check):
                 cl = self.classes(f.get('lines')) + (
                     '', ':sub', ':tmp', ':alt', ':sibling', ':elsewhere')[
                     f.get('sub') or 0]
+                if 'latin1' in gname:
+                    cl = '-'        # the place plays no part
             else:
                 cl = '-'
             R.viol('test-fails:%s:%s:n%s:%s'
@@ -760,7 +762,10 @@ class C11(Check):
             return 'group-' + '+'.join(sorted(set(
                 'file' if m[0] == 'file' else m[0] for m in gd[2])))
         if gd[0] == 'file':
-            return 'file-%s' % b.files[gd[1]][2]
+            k = b.files[gd[1]][2]
+            if k in ('latintxt', 'latincsv', 'latinlong'):
+                k = 'latin1-text-by-extension'
+            return 'file-%s' % k
         return gd[0]
 
 
